@@ -415,6 +415,14 @@ class TapAdapter(engine.DevAdapter):
         if a in (SUCCEEDED, FAILED) and not st.get("repeat_kill_chain", False) and red.actions_concluded and h.action != "do-nothing" \
                :
             v.append(violation("stops_after_the_end", sig, "step %d: action %s after the kill chain ended" % (s.step, h.action)))
+        # start nodes: every action the threat actor issues from a host is issued from one of its configured start nodes (the
+        # c2-server-* actions address the configured command-and-control server, not a host the actor sits on)
+        if h.action != "do-nothing" and not h.action.startswith("c2-server"):
+            src = h.parameters.get("node_name", h.parameters.get("source_node"))
+            allowed = list(st.get("starting_nodes") or []) or [st.get("default_starting_node")]
+            if src is not None and src not in allowed:
+                v.append(violation("acts_only_from_start_nodes", "%s:%s" % (type(red).__name__, h.action),
+                                   "step %d: %s issued from %s, configured start nodes %s" % (s.step, h.action, src, allowed)))
         # timing: actions only at or after the start step (minus variance), consecutive actions at least frequency - variance apart
         if h.action != "do-nothing":
             lo = st.get("start_step", 5) - st.get("variance", 0)
@@ -436,11 +444,18 @@ def tap_plan(tier):
     if tier == "thorough":
         for scen in ("uc7", "uc7_tap003"):
             P.append(("tap-%s-det" % scen, scen, dict(variance=0, probability=1), 80, 1))
+            P.append(("tap-%s-second-pass" % scen, scen, dict(variance=0, probability=1, repeat_kill_chain=True, frequency=2), 60, 1))
             P.append(("tap-%s-var" % scen, scen, dict(variance=1, probability=0.5, repeat_kill_chain_stages=True), 60, 2))
             P.append(("tap-%s-norepeat" % scen, scen, dict(variance=1, probability=0.5, repeat_kill_chain_stages=False, repeat_kill_chain=True), 60, 1))
     else:
         P.append(("tap-uc7-var", "uc7", dict(variance=1, probability=0.5), 28, 1))
+        # a whole kill chain and the beginning of the next one (repeat_kill_chain), no deviations: the second pass starts
+        # from the configured start node again
+        P.append(("tap-uc7-second-pass", "uc7", dict(variance=0, probability=1, repeat_kill_chain=True, frequency=2,
+                                                     starting_nodes=["ST_PROJ-A-PRV-PC-1"]), 50, 0))
         P.append(("tap-uc7_tap003-norepeat", "uc7_tap003", dict(variance=1, probability=0.5, repeat_kill_chain_stages=False, repeat_kill_chain=True), 24, 1))
+        # a failed stage is repeated (the retry branch): the agent keeps to its schedule while it retries
+        P.append(("tap-uc7_tap003-retry", "uc7_tap003", dict(variance=0, probability=1, repeat_kill_chain_stages=True), 24, 1))
     return P
 
 
